@@ -88,6 +88,7 @@ type specBias struct {
 	unicode       int
 	lrDirect      bool
 	bigClasses    int // chance out of 100 (0: a third)
+	topLoop       int // chance out of 100 of a grammar for long parses (gen.Config.TopLoop)
 }
 
 func drawSpec(r *rng, name string, b specBias) *genParser {
@@ -99,6 +100,7 @@ func drawSpec(r *rng, name string, b specBias) *genParser {
 			Lookahead: r.chance(2, 3), Labels: r.chance(2, 3), Throws: r.intn(100) < b.throws, Fold: r.chance(1, 3),
 			Unicode: r.intn(100) < b.unicode, AnyMatcher: r.chance(1, 2), Display: r.intn(100) < b.display,
 			NullableLoops: r.intn(100) < b.nullableLoops, LeftRec: lr, LeftRecDirect: b.lrDirect, LeftRecRunnable: true, StateBias: b.stateBias,
+			TopLoop:  !lr && b.topLoop > 0 && r.intn(100) < b.topLoop,
 			LongLits: r.chance(1, 3), BigClasses: r.intn(100) < map[bool]int{true: b.bigClasses, false: 33}[b.bigClasses > 0],
 		}
 		g := gen.Generate(r2{r}, cfg)
